@@ -88,6 +88,7 @@ func PlanFor(prop, tier string) (*Plan, error) {
 			S1p(tier),
 			S3x(tier).withBudget(Budget{"bid": 2, "block": 1, "allow": 0, "update": 0}, "-lite").withProbes(false),
 			S2b(tier, 0, false).withBudget(Budget{"bid": 2, "mod": 2, "block": 1, "update": 0}, "-lite").withProbes(false),
+			S1d(tier).withBudget(Budget{"bid": 1, "block": 2, "donate": 1}, "-lite"), // coins sent straight to an escrow never change what is accepted
 		}
 		if !quick {
 			mid := Budget{"bid": 2, "allow": 2, "update": 1, "mod": 1, "block": 3, "tick": 1, "cancel": 1}
@@ -111,7 +112,8 @@ func PlanFor(prop, tier string) (*Plan, error) {
 			f := NewC19Factory()
 			return func() []Monitor { return []Monitor{f()} }
 		}()
-		p.Rule = "histories over 2-3 concurrent auctions sharing auctioneer, bidders and (crossed) denominations, failed operations included: around every transition the raw records, bids, allow-list, instalments, counters and three escrow balances of every auction that is neither the target nor due for a lifecycle step must be byte-identical; agreed terms of every auction are compared before/after every transition; ids follow the counters; a table shared by the whole run maps (projection of X, actor balances, params, time, op) to the outcome and flags two different outcomes under one key; non-trivial = distinct frame cases and distinct table keys seen with different contents of the other auctions"
+		p.Post = c19FailedCreations
+		p.Rule = "histories over 2-3 concurrent auctions sharing auctioneer, bidders and (crossed) denominations, failed operations included: around every transition the raw records, bids, allow-list, instalments, counters and three escrow balances of every auction that is neither the target nor due for a lifecycle step must be byte-identical; agreed terms of every auction are compared before/after every transition; ids follow the counters; a table shared by the whole run maps (projection of X, actor balances, params, time, op) to the outcome and flags two different outcomes under one key; plus every direct keeper creation failing at a listener veto / bank transfer with its writes kept or rolled back, followed by another creation (ids, record identity, new escrow); non-trivial = distinct frame cases and distinct table keys seen with different contents of the other auctions"
 	case "C16":
 		p.Scenarios = []*Scenario{S2b(tier, 2, false).tagged("noqueries"), S1b(tier, "3", true), S3(tier, false), S5(tier, []string{"0.5", "0.5"}, "n2-halves"), S2c(tier, "0.25", 1).tagged("noqueries"), S2b(tier, 0, true)}
 		if !quick {
@@ -127,6 +129,7 @@ func PlanFor(prop, tier string) (*Plan, error) {
 			S1a(tier, true).withBudget(lite, "-lite").withEntryIDMismatch(),
 			S3e(tier).withBudget(Budget{"bid": 3, "block": 3}, "-lite"),
 			S2c(tier, "0.5", 0).withBudget(Budget{"bid": 2, "mod": 0, "update": 0, "block": 2, "tick": 2}, "-lite"), // extension period 0 in the params
+			S2b(tier, 2, false).withBudget(Budget{"bid": 2, "mod": 1, "update": 0, "block": 3}, "-lite"), // a matched bid modified during an extension round, then exported
 		}
 		if !quick {
 			p.Scenarios = []*Scenario{S3(tier, false), S2e(tier), S1a(tier, true), S2a(tier, false), S3x(tier), S3e(tier)}
